@@ -41,8 +41,12 @@ RULE = ('one PRNG; (a) histories (74 %): 1-8 OMS over one frequency range (20-12
         'containing the 193.1 THz anchor, off-grid band edges, guard bands 0-50 GHz), per-OMS unusable zones (left/right/'
         'gap) and pre-occupation, 1-12 (thorough: up to 60) requests with routes over 1-5 OMS, with or without a reverse '
         'route, every mix of fixed/free N and M, multi-slot, over/under-provisioned M, N on band edges and outside the '
-        'map, first_fit/last_fit; ~12 % malformed (bitmap length, unaligned maps, zero bit rate, empty route, unknown '
-        'OMS id, unknown policy, no slot entry); compared after EVERY call; (b) unit calls of spectrum_selection, '
+        'map, first_fit/last_fit; 65 % of the histories are cut at random into pth_assign_spectrum calls of 1-6 requests '
+        '(as planning() passes whole batches), 60 % contain runs of consecutive requests over exactly the same OMS set '
+        'with a request that is blocked after tentative marks in the middle, followed by free / fixed probes; ~12 % malformed (bitmap length, unaligned maps, zero bit rate, empty route, unknown '
+        'OMS id, unknown policy, no slot entry); compared after EVERY call (all maps, every rq.N/M/blocking_reason against the model\'s fold over the same requests; '
+        'inside a batch the monitor judges first-fit-lowest and "a free fixed (N, M) is granted" on the state before each '
+        'request rebuilt from its own ledger of accepted grants); (b) unit calls of spectrum_selection, '
         'determine_slot_numbers, assign_spectrum, order_slots/restore_order, bitmap_sum, '
         'compute_spectrum_slot_vs_bandwidth (23 %); (c) a designed ring/line network through build_oms_list, real '
         'routes, find_reversed_path and one batch call (3 %). A history is non-trivial when at least one request is '
@@ -235,12 +239,17 @@ class Sim:
             self.mark(ids, n, mm)
 
 
-def gen_request(rng, idx, n_oms, n_min, n_max, gb, widen, odd=None, sim=None):
+def gen_request(rng, idx, n_oms, n_min, n_max, gb, widen, odd=None, sim=None, route=None, force=None):
     small = (n_max - n_min) < 70          # keep the demand in proportion to the map
     spacing = rng.choice([50, 25, 37.5, 25, 12.5, 50, 43] if small else [50, 50, 50, 37.5, 75, 25, 12.5, 62.5, 43, 100, 50])
     spacing = int(spacing * 10 ** 9)
     bit_rate = rng.choice([100, 100, 200, 400]) * 10 ** 9
     nb_wl = rng.choice([1, 1, 1, 1, 1, 2] if small else [1, 1, 1, 1, 2, 2, 3, 4])
+    if force == 'partial':
+        nb_wl = rng.choice([3, 3, 4])
+        spacing = int(rng.choice([12.5, 25, 25, 37.5]) * 10 ** 9) if small else spacing
+    elif force == 'probe':
+        nb_wl = 1
     bw = nb_wl * bit_rate - rng.choice([0, 0, 0, 10 * 10 ** 9])
     pcm = cdiv(spacing, SLOT)
     required = pcm * cdiv(bw, bit_rate)
@@ -253,6 +262,8 @@ def gen_request(rng, idx, n_oms, n_min, n_max, gb, widen, odd=None, sim=None):
         rpth = gen_tokens(rng, rids)
     else:
         rpth = []
+    if route is not None:       # exactly the OMS set (and elements) of the previous request
+        ids, rids, pth, rpth = list(route[0]), list(route[1]), list(route[2]), list(route[3])
     g4 = gb // GRID
 
     def pick_m():
@@ -276,7 +287,32 @@ def gen_request(rng, idx, n_oms, n_min, n_max, gb, widen, odd=None, sim=None):
         return rng.randint(n_min, n_max)
 
     shape = rng.choice(['nn', 'nn', 'nn', 'nm', 'nm', 'NM', 'NM', 'Nn', 'multi', 'multi', 'split', 'fixedmulti'])
-    if shape == 'nn':
+    if force == 'partial':
+        # a request that is blocked AFTER a tentative selection: a served free slot followed by a fixed slot that is
+        # taken, or a fixed N with free M that finds fewer slots than required
+        allids = ids + (rids if rpth else [])
+        busy = [n for n in range(n_min + g4 + pcm, n_max - g4 - pcm + 1)
+                if sim is not None and not sim.free(allids, n, pcm)] or [n_min + 1]
+        if rng.random() < 0.6:
+            slots = [[None, (nb_wl - 1) * pcm], [rng.choice(busy), pcm]]
+            if rng.random() < 0.3:
+                slots.reverse()
+        else:
+            slots = [[pick_n(pcm), None]]
+            if rng.random() < 0.4:
+                slots.append([rng.choice(busy), pcm])
+        shape = 'partial'
+    elif force == 'probe':
+        shape = rng.choice(['nn', 'nn', 'nm', 'NM', 'NM'])
+        if shape == 'nn':
+            slots = [[None, None]]
+        elif shape == 'nm':
+            slots = [[None, rng.choice([pcm, 2 * pcm])]]
+        else:
+            m = rng.choice([pcm, pcm, 2 * pcm])
+            c = sim.centres(ids + (rids if rpth else []), m) if sim is not None else []
+            slots = [[rng.choice([c[0], c[0], rng.choice(c)]) if c else pick_n(m), m]]
+    elif shape == 'nn':
         slots = [[None, None]]
     elif shape == 'nm':
         slots = [[None, pick_m()]]
@@ -302,7 +338,8 @@ def gen_request(rng, idx, n_oms, n_min, n_max, gb, widen, odd=None, sim=None):
             m = pick_m()
             slots.append({'nn': [None, None], 'nm': [None, m], 'NM': [pick_n(m), m], 'Nn': [pick_n(), None]}[s])
     rq = {'id': f'r{idx}', 'slots': [{'N': n, 'M': m} for n, m in slots], 'path_bandwidth': bw, 'bit_rate': bit_rate,
-          'spacing': spacing, 'pth': pth, 'rpth': rpth, 'pre_blocked': rng.random() < 0.03}
+          'spacing': spacing, 'pth': pth, 'rpth': rpth, 'pre_blocked': rng.random() < 0.03 and force is None,
+          '_route': [ids, rids, pth, rpth]}
     if sim is not None and not rq['pre_blocked']:
         sim.play(ids + rids, slots, pcm, required)
     if odd == 'zero_rate':
@@ -344,14 +381,37 @@ def gen_history(rng, tier, widen):
     reqs = []
     odd_at = rng.randrange(hist)
     sim = Sim(oms, n_min, n_max, gb // GRID) if odd not in ('bad_len', 'unaligned') else None
+    # runs of consecutive requests over exactly the same OMS set: [anything, blocked-after-tentative-marks, probes...]
+    plan = [None] * hist
+    if sim is not None and hist >= 3 and rng.random() < 0.6:
+        i = rng.randrange(0, hist - 2)
+        while i + 2 < hist:
+            plan[i + 1] = 'partial'
+            k = rng.choice([1, 1, 2, 3])
+            for j in range(i + 2, min(hist, i + 2 + k)):
+                plan[j] = 'probe'
+            i += 2 + k + rng.choice([0, 1, 3])
+    route = None
     for i in range(hist):
-        reqs.append(gen_request(rng, i, n_oms, n_min, n_max, gb, widen,
-                                odd if (i == odd_at and odd in ('zero_rate', 'empty_path', 'bad_path', 'no_slots')) else None,
-                                sim))
+        o = odd if (i == odd_at and odd in ('zero_rate', 'empty_path', 'bad_path', 'no_slots')) else None
+        r = gen_request(rng, i, n_oms, n_min, n_max, gb, widen, o, sim,
+                        route if (plan[i] is not None and o is None) else None, plan[i] if o is None else None)
+        route = r.pop('_route')
+        reqs.append(r)
+    # how the history is cut into pth_assign_spectrum calls (planning() passes whole batches)
+    batches = []
+    if rng.random() < 0.65:
+        left = hist
+        while left > 0:
+            b = min(left, rng.choice([1, 2, 2, 3, 4, 6]))
+            batches.append(b)
+            left -= b
+    else:
+        batches = [1] * hist
     pol = 'first_fit' if rng.random() < 0.75 else 'last_fit'
     if odd == 'policy':
         pol = '2partition'
-    return {'kind': 'history', 'policy': pol, 'oms': oms, 'requests': reqs}
+    return {'kind': 'history', 'policy': pol, 'oms': oms, 'requests': reqs, 'batches': batches}
 
 
 def gen_unit(rng, tier, widen):
@@ -551,12 +611,29 @@ class Ledger:
         return ''.join({'free': '1', 'unusable': 'u'}.get(self.own[k].get(n), '0') for n in range(b['n_min'], b['n_max'] + 1))
 
 
-def monitor_step(res, led, before, after, r, out, policy, plaus, stats, grid_ok=True):
+def monitor_step(res, led, before, after, r, out, policy, plaus, stats, grid_ok=True, observed=True):
     """the property statements for one call; `before`/`after` are snapshots of all OMS"""
     ids = sorted({t for t in r['pth'] + r['rpth'] if isinstance(t, int)})
     rid = r['id']
     if out['kind'] != 'accepted':
-        if before != after:
+        # a fully fixed single slot that is free on the whole route (state BEFORE this request) and wide enough for the
+        # demand must be granted: refusing it means the selection ran on something else than the recorded occupancy
+        if plaus and grid_ok and out['kind'] == 'blocked' and len(r['slots']) == 1 and ids \
+                and r['slots'][0]['N'] is not None and r['slots'][0]['M'] is not None:
+            n, m = r['slots'][0]['N'], r['slots'][0]['M']
+            pcm0 = cdiv(r['spacing'], SLOT)
+            nb0 = cdiv(r['path_bandwidth'], r['bit_rate'])
+            lo_ok = max(before[k]['bm']['idx_min'] for k in ids)
+            hi_ok = min(before[k]['bm']['idx_max'] for k in ids)
+            nmin0 = before[ids[0]]['bm']['n_min']
+            free = all(before[k]['bm']['n_min'] <= x <= before[k]['bm']['n_max']
+                       and before[k]['bm']['cells'][x - before[k]['bm']['n_min']] == '1'
+                       for k in ids for x in range(n - m, n + m))
+            stats['fixed_slot_checked'] += 1
+            if m // pcm0 >= nb0 and free and n - m >= lo_ok and n + m - 1 <= hi_ok and n - m > nmin0:
+                res.fail(f'free fixed slot refused: request {rid} asks (N={n}, M={m}) which is free on every OMS of its '
+                         f'route and wide enough, but is blocked ({out.get("reason")})', cls='unlisted')
+        if observed and before != after:
             ch = sum(1 for a, b in zip(before, after) if a != b)
             res.fail(f'blocked request changed state: request {rid} ({out}) left {ch} OMS modified', cls='unlisted')
         if out['kind'] in ('blocked', 'skipped') and ('N' in out or 'M' in out):
@@ -595,7 +672,7 @@ def monitor_step(res, led, before, after, r, out, policy, plaus, stats, grid_ok=
                 if x in led.own[k]:
                     led.own[k][x] = 'rq:' + rid
     # recorded occupancy = initial + union of accepted, on exactly the OMS of the route
-    for k in range(len(after)):
+    for k in (range(len(after)) if observed else ()):
         exp = led.expected_cells(k, after[k]['bm'])
         if after[k]['bm']['cells'] != exp:
             d = [i for i, (a, b) in enumerate(zip(after[k]['bm']['cells'], exp)) if a != b]
@@ -686,53 +763,89 @@ def run_history(case, drv):
     accepted = blocked = 0
     shared = False
     used = set()
-    for i, (r, (p, rp)) in enumerate(zip(case['requests'], routes)):
-        rq = mk_request(r)
-        step = ans['steps'][i] if i < len(ans['steps']) else {'error': 'model-stopped'}
+    nreq = len(case['requests'])
+    batches = list(case.get('batches') or [1] * nreq)
+    if sum(batches) != nreq:
+        batches = [1] * nreq
+    pos = 0
+    stop = False
+    for bsize in batches:
+        if stop:
+            break
+        idx = list(range(pos, pos + bsize))
+        pos += bsize
+        rqs = [mk_request(case['requests'][i]) for i in idx]
+        steps = [ans['steps'][i] if i < len(ans['steps']) else {'error': 'model-stopped'} for i in idx]
         try:
-            with time_limit(5):
-                pth_assign_spectrum([p], [rq], oms_list, [rp], policy=policy)
+            with time_limit(5 * bsize):
+                pth_assign_spectrum([routes[i][0] for i in idx], rqs, oms_list, [routes[i][1] for i in idx], policy=policy)
             err = None
         except Exception as e:
             err = kind_of(e)
         after = [snap_oms(o) for o in oms_list]
-        plaus = plaus_state and plausible_request(r, len(oms_list), policy)
-        if err is not None:
-            res.cmp_exact('pth_assign_spectrum.error', err, step.get('error'), request=i)
-            stats[f'exception_{err}'] += 1
-            if plaus:
-                cls = 'unlisted'
-                res.fail(f'crash instead of accept/block: request {r["id"]} {r["slots"]} raises {err} out of '
-                         f'pth_assign_spectrum', cls=cls)
-                if before != after:
-                    res.fail(f'crash left partial state: request {r["id"]} raised {err}', cls='unlisted')
+        stats[f'batch_size_{min(bsize, 6)}'] += 1
+        model_err = next((st['error'] for st in steps if 'error' in st), None)
+        if err is not None or model_err is not None:
+            res.cmp_exact('pth_assign_spectrum.error', err, model_err, request=idx[0], batch=bsize)
+            if err is not None:
+                stats[f'exception_{err}'] += 1
+                if plaus_state and all(plausible_request(case['requests'][i], len(oms_list), policy) for i in idx):
+                    res.fail(f'crash instead of accept/block: batch {[case["requests"][i]["id"] for i in idx]} raises {err} '
+                             f'out of pth_assign_spectrum', cls='unlisted')
+                    if bsize == 1 and before != after:
+                        res.fail(f'crash left partial state: request {case["requests"][idx[0]]["id"]} raised {err}',
+                                 cls='unlisted')
             break
-        out = outcome_of(rq, r.get('pre_blocked'))
-        if 'error' in step:
-            res.cmp_exact('pth_assign_spectrum.error', None, step['error'], request=i)
-            break
-        res.cmp_exact('pth_assign_spectrum.outcome', out, step['outcome'], request=i)
-        res.cmp_exact('pth_assign_spectrum.oms_state', after, step['oms'], request=i)
-        if aligned:
-            monitor_step(res, led, before, after, r, out, policy, plaus, stats, grid_ok)
-        stats[f'outcome_{out["kind"]}' + (f'_{out["reason"]}' if out['kind'] == 'blocked' else '')] += 1
-        ids = {t for t in r['pth'] + r['rpth'] if isinstance(t, int)}
-        if out['kind'] == 'accepted':
-            accepted += 1
-            if ids & used:
-                shared = True
-            used |= ids
-            stats['slots_granted'] += len(out['nm']['N'])
-            if len(out['nm']['N']) > 1:
-                stats['accepted_multi_slot'] += 1
-        elif out['kind'] == 'blocked':
-            blocked += 1
-            if len(ids) == 1 and len(r['slots']) > 1:
-                stats['blocked_multislot_on_single_oms_route'] += 1
-        for s in r['slots']:
-            stats['entry_' + ('N' if s['N'] is not None else 'n') + ('M' if s['M'] is not None else 'm')] += 1
-        stats[f'route_oms_{min(len(ids), 6)}'] += 1
-        stats['bidir'] += int(bool(r['rpth']))
+        outs = [outcome_of(rq, case['requests'][i].get('pre_blocked')) for rq, i in zip(rqs, idx)]
+        res.cmp_exact('pth_assign_spectrum.outcomes', outs, [st['outcome'] for st in steps], request=idx[0], batch=bsize)
+        res.cmp_exact('pth_assign_spectrum.oms_state', after, steps[-1]['oms'], request=idx[-1], batch=bsize)
+        for i, out in zip(idx, outs):
+            r = case['requests'][i]
+            plaus = plaus_state and plausible_request(r, len(oms_list), policy)
+            if aligned:
+                if bsize == 1:
+                    monitor_step(res, led, before, after, r, out, policy, plaus, stats, grid_ok)
+                else:
+                    # inside a batch the state before request i is not observable: rebuild it from the state at the
+                    # start of the call and the grants of the requests of this call accepted so far (own ledger)
+                    virt = [dict(sn, bm=dict(sn['bm'], cells=led.expected_cells(k, sn['bm']))) for k, sn in enumerate(before)]
+                    monitor_step(res, led, virt, virt, r, out, policy, plaus, stats, grid_ok, observed=False)
+            stats[f'outcome_{out["kind"]}' + (f'_{out["reason"]}' if out['kind'] == 'blocked' else '')] += 1
+            ids = {t for t in r['pth'] + r['rpth'] if isinstance(t, int)}
+            if out['kind'] == 'accepted':
+                accepted += 1
+                if ids & used:
+                    shared = True
+                used |= ids
+                stats['slots_granted'] += len(out['nm']['N'])
+                if len(out['nm']['N']) > 1:
+                    stats['accepted_multi_slot'] += 1
+            elif out['kind'] == 'blocked':
+                blocked += 1
+                if len(ids) == 1 and len(r['slots']) > 1:
+                    stats['blocked_multislot_on_single_oms_route'] += 1
+                if i + 1 < nreq and i + 1 in idx and \
+                        {t for t in case['requests'][i + 1]['pth'] + case['requests'][i + 1]['rpth'] if isinstance(t, int)} == ids:
+                    stats['blocked_then_same_route_in_one_call'] += 1
+            for sl in r['slots']:
+                stats['entry_' + ('N' if sl['N'] is not None else 'n') + ('M' if sl['M'] is not None else 'm')] += 1
+            stats[f'route_oms_{min(len(ids), 6)}'] += 1
+            stats['bidir'] += int(bool(r['rpth']))
+        if aligned and bsize > 1:
+            # end of the call: what the OMS record must be the initial occupancy + the accepted grants, nothing else
+            for k in range(len(after)):
+                exp = led.expected_cells(k, after[k]['bm'])
+                if after[k]['bm']['cells'] != exp:
+                    d = [j for j, (a, b) in enumerate(zip(after[k]['bm']['cells'], exp)) if a != b]
+                    res.fail(f'occupancy is not the union of the accepted assignments: OMS {k} after the call '
+                             f'{[case["requests"][i]["id"] for i in idx]} differs at {len(d)} cells', cls='unlisted')
+            untouched = [k for k in range(len(after)) if before[k]['bm'] == after[k]['bm']]
+            for k in untouched:
+                if before[k] != after[k] and not any(
+                        k in {t for t in case['requests'][i]['pth'] + case['requests'][i]['rpth'] if isinstance(t, int)}
+                        and o['kind'] == 'accepted' for i, o in zip(idx, outs)):
+                    res.fail(f'blocked request changed state: service bookkeeping of OMS {k} changed without an accepted '
+                             f'request on it', cls='unlisted')
         before = after
     stats[f'policy_{policy}'] += 1
     stats['plausible_state'] += int(plaus_state)
@@ -983,7 +1096,8 @@ def shrink_candidates(case):
 
 def exhaustive():
     """ALL histories of length <= 2 over an alphabet of 60 requests, and all histories of length 3 over a sub-alphabet of
-    18, on 2 OMS x 17 slots (n = -8..8, guard band one grid step), from two initial states; both policies for length 1."""
+    18, on 2 OMS x 17 slots (n = -8..8, guard band one grid step), from two initial states; both policies for length 1;
+    same-route pairs additionally as one pth_assign_spectrum call, half of the triples as one call."""
     f_min, f_max, gb = ANCHOR - 8 * GRID, ANCHOR + 8 * GRID, GRID
 
     def oms(cells0, cells1):
@@ -999,13 +1113,14 @@ def exhaustive():
                 alphabet.append((pi, si, bw))
     small = [(pi, si, 100) for pi in range(3) for si in range(6)]
 
-    def mk(hist, st, pol):
+    def mk(hist, st, pol, one_call=False):
         reqs = []
         for i, (pi, si, bw) in enumerate(hist):
             p, rp = paths[pi]
             reqs.append({'id': f'x{i}', 'slots': [{'N': n, 'M': m} for n, m in shapes[si]], 'path_bandwidth': bw * 10 ** 9,
                          'bit_rate': 100 * 10 ** 9, 'spacing': 25 * 10 ** 9, 'pth': p, 'rpth': rp, 'pre_blocked': False})
-        return {'kind': 'history', 'policy': pol, 'oms': copy.deepcopy(st), 'requests': reqs}
+        return {'kind': 'history', 'policy': pol, 'oms': copy.deepcopy(st), 'requests': reqs,
+                'batches': [len(reqs)] if one_call else [1] * len(reqs)}
     for st in states:
         for a in alphabet:
             yield mk([a], st, 'first_fit')
@@ -1013,7 +1128,9 @@ def exhaustive():
         for a in alphabet:
             for b in alphabet:
                 yield mk([a, b], st, 'first_fit')
+                if a[0] == b[0]:                       # same route: also as ONE pth_assign_spectrum call
+                    yield mk([a, b], st, 'first_fit', one_call=True)
         for a in small:
             for b in small:
                 for c in small:
-                    yield mk([a, b, c], st, 'first_fit')
+                    yield mk([a, b, c], st, 'first_fit', one_call=(a[0] + b[0] + c[0]) % 2 == 0)
